@@ -388,7 +388,10 @@ func init() {
 }
 
 func (e *Exec) patternIntrinsicStd(fn *ssa.Function, name string) Intrinsic {
-	return e.patternIntrinsicHarness(fn, name)
+	if in := e.patternIntrinsicHarness(fn, name); in != nil {
+		return in
+	}
+	return e.envPatternIntrinsic(fn, name)
 }
 
 // invokeHook intercepts interface method calls on engine-defined dynamic types.
